@@ -1,6 +1,6 @@
 (* C14 - INVARIANCE of the refinement under blank-node renaming.
-   For a one-to-one renaming f of blank-node labels and a graph without blank
-   predicates, every step of the model of _initial_color / Color.distinguish /
+   For a one-to-one renaming f of blank-node labels (blank predicates included
+   since fix 07e5253f), every step of the model of _initial_color / Color.distinguish /
    _refine commutes with f: the colouring of the renamed graph IS the renamed
    colouring of the graph (same hashes, same order, nodes renamed).  Hence
    isomorphic graphs get corresponding partitions, and - for graphs on which
@@ -137,25 +137,21 @@ Section E.
 
   (* ---- the graph-dependent steps ---- *)
   Variable g : graph.
-  Hypothesis no_blank_pred : forall t, In t g -> is_bnode (pred_of t) = false.
   Notation g' := (rename_g f g).
 
   Lemma edge_rt a b t : edge (rt a) (rt b) (rename_t f t) = edge a b t.
   Proof. destruct t as [[s p] o]. unfold edge. simpl. now rewrite !term_eqb_rt. Qed.
 
-  Lemma pred_rt t : In t g -> pred_of (rename_t f t) = pred_of t.
-  Proof.
-    intros Ht. specialize (no_blank_pred t Ht). destruct t as [[s p] o]. unfold pred_of in *. simpl in *.
-    destruct p; simpl in *; [reflexivity|discriminate].
-  Qed.
+  Lemma pred_rt t : ipred_of (pred_of (rename_t f t)) = ipred_of (pred_of t).
+  Proof. destruct t as [[s p] o]. unfold pred_of. simpl. now destruct p. Qed.
 
-  Lemma edge_items_rt (mk : term -> str -> citem) hW a b :
-    map (fun t => mk (pred_of t) hW) (filter (edge (rt a) (rt b)) g')
-    = map (fun t => mk (pred_of t) hW) (filter (edge a b) g).
+  Lemma edge_items_rt (mk : ipred -> str -> citem) hW a b :
+    map (fun t => mk (ipred_of (pred_of t)) hW) (filter (edge (rt a) (rt b)) g')
+    = map (fun t => mk (ipred_of (pred_of t)) hW) (filter (edge a b) g).
   Proof.
     unfold rename_g. rewrite filter_map_comm, map_map.
     rewrite (filter_ext (fun x => edge (rt a) (rt b) (rename_t f x)) (edge a b)) by (intros; apply edge_rt).
-    apply map_ext_in. intros t Ht. apply filter_In in Ht. now rewrite pred_rt.
+    apply map_ext. intros t. now rewrite pred_rt.
   Qed.
 
   Lemma sig_rt hW W n : sig g' hW (map rt W) (rt n) = sig g hW W n.
@@ -318,13 +314,12 @@ Section E.
   Qed.
 
   Lemma canon_all_rc cs : forall ts,
-    (forall t, In t ts -> is_bnode (pred_of t) = false) ->
     canon_all (labels_of (rcs cs)) (map (rename_t f) ts) = canon_all (labels_of cs) ts.
   Proof.
     assert (T : forall t, canon_term (labels_of (rcs cs)) (rt t) = canon_term (labels_of cs) t).
     { intros [n|n]; simpl; auto. change (Blank (f n)) with (rt (Blank n)). now rewrite label_get_rc. }
-    induction ts as [|[[s p] o] r IH]; simpl; intros Hp; auto.
-    rewrite !T, IH; auto.
+    induction ts as [|[[s p] o] r IH]; simpl; auto.
+    now rewrite !T, IH.
   Qed.
 
   Definition refine_decides (fuel : nat) : Prop :=
@@ -336,7 +331,7 @@ Section E.
   Proof.
     intros [cs [Hr Hd]]. unfold m_canonical_triples, final_coloring. cbv zeta in *.
     rewrite initial_color_rc, refine_rc, Hr. simpl. rewrite m_discrete_rcs, Hd.
-    unfold rename_g. apply canon_all_rc. intros t Ht. now apply no_blank_pred.
+    unfold rename_g. apply canon_all_rc.
   Qed.
   (* ================================================================== *)
   (* the individualisation search commutes with the renaming as well     *)
@@ -424,7 +419,7 @@ Section E.
   Lemma gmem_rt t : gmem (rename_t f t) g' = gmem t g.
   Proof.
     unfold gmem, rename_g. induction g as [|u r IH]; simpl; auto.
-    rewrite triple_eqb_rt. f_equal. apply IH. intros x Hx. apply no_blank_pred. simpl. auto.
+    rewrite triple_eqb_rt. f_equal. apply IH.
   Qed.
 
   Lemma is_automorphism_rc m coloring :
@@ -568,7 +563,7 @@ Section E.
   Qed.
 
   Lemma cert_of_rc cs : cert_of tstr g' (rcs cs) = cert_of tstr g cs.
-  Proof. unfold cert_of, rename_g. now rewrite canon_all_rc by exact no_blank_pred. Qed.
+  Proof. unfold cert_of, rename_g. now rewrite canon_all_rc. Qed.
 
   Lemma min_cert_rc rest : forall cur cc,
     min_cert tstr g' (rcs cur) cc (map rcs rest) = option_map rcs (min_cert tstr g cur cc rest).
@@ -619,11 +614,10 @@ Section E.
     rewrite initial_color_rc, refine_rc.
     destruct (m_refine g fuel (m_initial_color g) (m_initial_color g)) as [cs|]; cbn [option_map]; [|reflexivity].
     rewrite m_discrete_rcs.
-    assert (P : forall t, In t g -> is_bnode (pred_of t) = false) by exact no_blank_pred.
     destruct (m_discrete cs).
-    - unfold rename_g. now apply canon_all_rc.
+    - unfold rename_g. apply canon_all_rc.
     - rewrite traces_rc. destruct (m_traces g fuel cs); cbn [option_map]; [|reflexivity].
-      unfold rename_g. now apply canon_all_rc.
+      unfold rename_g. apply canon_all_rc.
   Qed.
 End E.
 
@@ -633,13 +627,12 @@ Theorem model_complete_discrete_sameorder
   (hashfunc : str -> N) (n3 : term -> str) (hexs : N -> str) (decs : nat -> str) (tstr : ctriple -> str)
   (f : N -> N) (g : graph) (fuel : nat) :
   (forall x y, f x = f y -> x = y) ->
-  (forall t, In t g -> is_bnode (pred_of t) = false) ->
   refine_decides hashfunc n3 hexs decs g fuel ->
   forall cts, m_canonical_triples hashfunc n3 hexs decs tstr g fuel = Some cts ->
   m_isomorphic hashfunc n3 hexs decs tstr fuel g (rename_g f g) = Some true.
 Proof.
-  intros Hf Hp Hd cts Hc. unfold m_isomorphic, m_to_hash.
-  rewrite (canonical_triples_label_independent_discrete hashfunc n3 hexs decs tstr f Hf g Hp fuel Hd), Hc.
+  intros Hf Hd cts Hc. unfold m_isomorphic, m_to_hash.
+  rewrite (canonical_triples_label_independent_discrete hashfunc n3 hexs decs tstr f Hf g fuel Hd), Hc.
   now rewrite N.eqb_refl.
 Qed.
 
@@ -647,11 +640,10 @@ Theorem model_complete_sameorder
   (hashfunc : str -> N) (n3 : term -> str) (hexs : N -> str) (decs : nat -> str) (tstr : ctriple -> str)
   (f : N -> N) (g : graph) (fuel : nat) :
   (forall x y, f x = f y -> x = y) ->
-  (forall t, In t g -> is_bnode (pred_of t) = false) ->
   forall cts, m_canonical_triples hashfunc n3 hexs decs tstr g fuel = Some cts ->
   m_isomorphic hashfunc n3 hexs decs tstr fuel g (rename_g f g) = Some true.
 Proof.
-  intros Hf Hp cts Hc. unfold m_isomorphic, m_to_hash.
-  rewrite (canonical_triples_label_independent hashfunc n3 hexs decs tstr f Hf g Hp fuel), Hc.
+  intros Hf cts Hc. unfold m_isomorphic, m_to_hash.
+  rewrite (canonical_triples_label_independent hashfunc n3 hexs decs tstr f Hf g fuel), Hc.
   now rewrite N.eqb_refl.
 Qed.
